@@ -643,7 +643,7 @@ fn families(l: &Lang, thorough: bool) -> Acc {
     {
         let fns = ["length", "count", "value", "match", "search"];
         let arity = |f: &str| if f == "match" || f == "search" { 2 } else { 1 };
-        let simple: Vec<String> = ["1", "'a'", "null", "@.a", "@['a'][0]", "$.a", "@", "@.*", "@..a", "@[0,1]", "@[?@.a]", "@.a==1", "(@.a)", "!@.a", "@.a&&@.b"].iter().map(|s| s.to_string()).collect();
+        let simple: Vec<String> = ["1", "'a'", "null", "@.a", "@['a'][0]", "$.a", "@", "@.*", "@..a", "@[0,1]", "@[?@.a]", "@.a==1", "(@.a)", "!@.a", "@.a&&@.b", "!(!@.a)", "!(!@.*)", "(!@.a)", "((@.a))", "!((@.a))", "(!(!@.a))", "!(!(!(!@.*)))", "! ( ! @.a )", "(@.*)", "(@.a==1)", "!(@.a==1)"].iter().map(|s| s.to_string()).collect();
         let mut level1: Vec<String> = vec![];
         for f in fns {
             if arity(f) == 1 {
